@@ -11,6 +11,7 @@ package main
 // The child only MEASURES; every verdict is taken by the parent (s_threads.go).
 
 import (
+	"archive/tar"
 	"bytes"
 	"crypto/sha256"
 	"encoding/hex"
@@ -803,10 +804,12 @@ type thrPhaseRes struct {
 }
 
 type thrObsOut struct {
-	PreDirty  int         `json:"preDirty"`
-	MainMoved int         `json:"mainMoved"`
-	Conc      thrPhaseRes `json:"conc"`
-	Seq       thrPhaseRes `json:"seq"`
+	PreDirty   int         `json:"preDirty"`
+	MainMoved  int         `json:"mainMoved"`
+	Conc       thrPhaseRes `json:"conc"`
+	Seq        thrPhaseRes `json:"seq"`
+	MountLeak  string      `json:"mountLeak,omitempty"`
+	MountProbe string      `json:"mountProbe,omitempty"` // ran | skipped:<why>
 }
 
 type thrGate struct {
@@ -1281,8 +1284,102 @@ func runThrObsJob(j *Job, res *JobResult) {
 			break // goroutines or tainted threads of this phase are still around; nothing after it can be trusted
 		}
 	}
+	if out.Conc.Hung+out.Seq.Hung+len(out.Conc.Dirty)+len(out.Seq.Dirty) == 0 && out.Conc.FsShare == "" && out.Seq.FsShare == "" {
+		out.MountProbe, out.MountLeak = thrMountProbe()
+	} else {
+		out.MountProbe = "skipped:earlier phase left goroutines or tainted threads"
+	}
 	_ = resetWorld()
 	b, _ := json.Marshal(out)
 	res.Extra = string(b)
 	res.Out = "ok"
+}
+
+func thrMountLines() ([]string, error) {
+	b, err := os.ReadFile("/proc/self/mountinfo")
+	if err != nil {
+		return nil, err
+	}
+	var out []string
+	for _, l := range strings.Split(strings.TrimSpace(string(b)), "\n") {
+		f := strings.Fields(l)
+		if len(f) >= 5 {
+			out = append(out, f[3]+" on "+f[4])
+		}
+	}
+	sort.Strings(out)
+	return out, nil
+}
+
+// thrMountProbe: the mount table the rest of the process sees.  The root of a chrooted call is placed on a
+// SHARED mount (as a separate volume under systemd is): whatever the jailed thread mounts while setting up its
+// root must not propagate back.  Returns (status, what leaked).
+func thrMountProbe() (string, string) {
+	const top = "/w/.shared"
+	_ = os.MkdirAll(top, 0o755)
+	if err := unix.Mount("tmpfs", top, "tmpfs", 0, "size=4m,mode=0755"); err != nil {
+		return "skipped:mount tmpfs: " + err.Error(), ""
+	}
+	defer func() {
+		for i := 0; i < 8; i++ {
+			if unix.Unmount(top, unix.MNT_DETACH) != nil {
+				break
+			}
+		}
+	}()
+	if err := unix.Mount("", top, "", unix.MS_SHARED, ""); err != nil {
+		return "skipped:make-shared: " + err.Error(), ""
+	}
+	root := top + "/root"
+	if err := os.MkdirAll(root+"/src", 0o755); err != nil {
+		return "skipped:" + err.Error(), ""
+	}
+	_ = os.WriteFile(root+"/src/f", []byte("x"), 0o644)
+	before, err := thrMountLines()
+	if err != nil {
+		return "skipped:" + err.Error(), ""
+	}
+	var buf bytes.Buffer
+	tw := tar.NewWriter(&buf)
+	_ = tw.WriteHeader(&tar.Header{Name: "d/", Typeflag: tar.TypeDir, Mode: 0o755})
+	_ = tw.WriteHeader(&tar.Header{Name: "d/f", Typeflag: tar.TypeReg, Mode: 0o644, Size: 1})
+	_, _ = tw.Write([]byte("y"))
+	_ = tw.Close()
+	var errs []string
+	if err := chrootarchive.UntarUncompressed(bytes.NewReader(buf.Bytes()), root, nil); err != nil {
+		errs = append(errs, "untar: "+err.Error())
+	}
+	if _, err := chrootarchive.ApplyUncompressedLayer(root, bytes.NewReader(buf.Bytes()), nil); err != nil {
+		errs = append(errs, "layer: "+err.Error())
+	}
+	if rc, err := chrootarchive.Tar(root+"/src", nil, root); err != nil {
+		errs = append(errs, "tar: "+err.Error())
+	} else {
+		_, _ = io.Copy(io.Discard, rc)
+		rc.Close()
+	}
+	// a thread that is about to die may still hold its namespace for a moment; that does not show here: only
+	// the startup thread's namespace is read
+	after, err := thrMountLines()
+	if err != nil {
+		return "skipped:" + err.Error(), ""
+	}
+	if len(errs) > 0 {
+		return "skipped:calls failed: " + strings.Join(errs, "; "), ""
+	}
+	cnt := map[string]int{}
+	for _, l := range before {
+		cnt[l]--
+	}
+	for _, l := range after {
+		cnt[l]++
+	}
+	var leak []string
+	for l, n := range cnt {
+		if n != 0 {
+			leak = append(leak, fmt.Sprintf("%+d %s", n, l))
+		}
+	}
+	sort.Strings(leak)
+	return "ran", strings.Join(leak, "; ")
 }
